@@ -1,32 +1,63 @@
-use divan::verif::{api, sched, Ev};
+mod bench;
+mod common;
+mod pool;
+
+use common::{Out, RunStats};
+use serde_json::json;
 
 fn main() {
+    // Panics of code under test are data in the trace; keep stderr quiet.
     std::panic::set_hook(Box::new(|_| {}));
-    let seed: u64 = std::env::args().nth(1).and_then(|s| s.parse().ok()).unwrap_or(1);
-    let cfg = sched::Config {
-        source: sched::Source::Random { seed, switch_permille: 300 },
-        spurious: 1,
-        ..Default::default()
+
+    let args: Vec<String> = std::env::args().collect();
+    let get = |name: &str| -> Option<String> {
+        args.iter().position(|a| a == name).and_then(|i| args.get(i + 1).cloned())
     };
-    let res = sched::run(cfg, || {
-        let pool = api::Pool::new();
-        for (n, panics) in [(2usize, vec![1usize]), (1, vec![])] {
-            divan::verif::event(Ev::new("bcast_call").u("n", n as u128));
-            let mut v: Vec<Option<usize>> = Vec::new();
-            pool.par_extend(&mut v, n, |i| {
-                divan::verif::event(Ev::new("task_begin").u("index", i as u128));
-                if panics.contains(&i) {
-                    divan::verif::event(Ev::new("task_panic").u("index", i as u128));
-                    panic!("boom");
+    let cmd = args.get(1).cloned().unwrap_or_default();
+    let scenarios = get("--scenarios");
+    let out_path = get("--out");
+    let mut out = Out::open(out_path.as_deref());
+    let mut stats = RunStats {
+        progress: get("--progress"),
+        stream: get("--stream"),
+        scenario_index: 0,
+        runs: 0,
+        outcomes: Default::default(),
+        dfs_exhausted: false,
+    };
+    let skip: usize = get("--skip").and_then(|s| s.parse().ok()).unwrap_or(0);
+
+    match cmd.as_str() {
+        "run" => {
+            for (i, sc) in common::read_scenarios(&scenarios.expect("--scenarios")).into_iter().enumerate() {
+                if i < skip {
+                    continue;
                 }
-                divan::verif::event(Ev::new("task_end").u("index", i as u128));
-                i
-            });
-            divan::verif::event(Ev::new("bcast_return").raw("slots", &format!("{:?}", v.iter().map(|x| x.is_some() as u8).collect::<Vec<_>>())));
+                stats.scenario_index = i;
+                match sc["kind"].as_str().unwrap_or("") {
+                    "pool" => common::run_scenario(&sc, &mut out, &mut stats, pool::body),
+                    "bench" => common::run_scenario(&sc, &mut out, &mut stats, bench::body),
+                    other => {
+                        eprintln!("unknown scenario kind {other:?}");
+                        std::process::exit(2);
+                    }
+                }
+            }
         }
-        divan::verif::event(Ev::new("pool_drop"));
-        drop(pool);
+        _ => {
+            eprintln!("usage: driver run --scenarios FILE [--out FILE]");
+            std::process::exit(2);
+        }
+    }
+
+    out.flush();
+    let summary = json!({
+        "runs": stats.runs,
+        "events": out.events,
+        "outcomes": stats.outcomes,
+        "dfs_exhausted": stats.dfs_exhausted,
     });
-    for l in &res.log { println!("{l}"); }
-    eprintln!("outcome={:?} steps={} threads={}", res.outcome, res.steps, res.threads);
+    eprintln!("DRIVER-SUMMARY {summary}");
+    // Leaked threads of abandoned scenarios must not keep the process alive.
+    std::process::exit(0);
 }
